@@ -29,7 +29,11 @@ def run(prog, tier) -> Result:
 
     def setup_money(c):
         c.new_type("M", **FLAVORS["money"])
-        a, b, um = c.unit("ua", "M"), c.unit("ub", "M"), c.unit("umoney", "M")
+        # currencies are units without definition; terms built from them are evaluated on interpreted Term objects
+        c.m.term_objects = True
+        a, b, um = c.unit("ua", "M", kind="base"), c.unit("ub", "M", kind="base"), c.unit("umoney", "M", kind="base")
+        for u in (a, b, um):
+            c.st.unit_defs[u.uid] = "base"
         c.st.distinct_units("ua", "ub")
         return [c.rate("self", a, b), c.qty("other", um)], {}
 
